@@ -26,15 +26,35 @@ def seq_array(case):
     return a
 
 def run(case):
+    X = [seq_array(case)]
     if case["kind"] == "seqdiff":
-        t = SequentialDifferenceTransformer(stride=case["t"])
-        X = [seq_array(case)]
+        if case.get("prehistory"):
+            # the estimator object has a past: fitted and used with another stride, then reconfigured with set_params
+            t = SequentialDifferenceTransformer(stride=case["t"] + 1 + case["prehistory"] % 2)
+            try:
+                P = [np.arange(3 * (case["t"] + 3), dtype=np.float64)]
+                t.fit(P).transform(P)
+            except Exception:
+                pass
+            t.set_params(stride=case["t"])
+        else:
+            t = SequentialDifferenceTransformer(stride=case["t"])
         out = t.fit(X).transform(X)[0]
     else:
-        t = SlidingWindowTransformer(window_width=case["width"], window_stride=case["stride"],
-                                     window_sample=to_sample(case["sample"]), kernels=to_kernels(case["K"], None),
-                                     pad_width=case["pw"], pad_value=case["pv"])
-        X = [seq_array(case)]
+        params = dict(window_width=case["width"], window_stride=case["stride"],
+                      window_sample=to_sample(case["sample"]), kernels=to_kernels(case["K"], None),
+                      pad_width=case["pw"], pad_value=case["pv"])
+        if case.get("prehistory"):
+            t = SlidingWindowTransformer(window_width=case["width"] + 1, window_stride=case["stride"] + 1,
+                                         window_sample=None, kernels=None, pad_width=1, pad_value=3)
+            try:
+                P = [np.arange(4 * (case["width"] + 2), dtype=np.float64)]
+                t.fit(P).transform(P)
+            except Exception:
+                pass
+            t.set_params(**params)
+        else:
+            t = SlidingWindowTransformer(**params)
         out = t.fit(X).transform(X)[0]
     out = np.asarray(out)
     if out.ndim == 1:
